@@ -274,13 +274,13 @@ def add_post(s0, s, specs, grp, func, fields, result_is=None):
         "other-lists-untouched": z3.ForAll([o], z3.Implies(o != lst, z3.And(
             z3.Select(s["list.arr"], o) == z3.Select(s0["list.arr"], o), z3.Select(s["list.len"], o) == z3.Select(s0["list.len"], o))),
             patterns=[z3.Select(s["list.arr"], o), z3.Select(s["list.len"], o)]),
-        "C15|nothing-added-or-one-appended-with-these-fields": z3.Or(
+        "C08,C15|nothing-added-or-one-appended-with-these-fields": z3.Or(
             z3.And(n == n0, arr == arr0),
             z3.And(n == n0 + 1, z3.ForAll([k], z3.Implies(z3.And(k >= 0, k < n0), z3.Select(arr, k) == z3.Select(arr0, k)),
                                           patterns=[z3.Select(arr, k)]),
                    new >= s0["ghost.alloc"], new < s["ghost.alloc"], s.sel("CallbackSpec.func", new) == func,
                    s.sel("CallbackSpec.group", new) == grp, *[s.sel("CallbackSpec." + fn, new) == fv for fn, fv in fields.items()])),
-        "C02,C15|appended-iff-no-equal-spec-was-there": (n == n0) == dup,
+        "C02,C08,C15|appended-iff-no-equal-spec-was-there": (n == n0) == dup,
         "only-the-own-convention-set-is-written": z3.ForAll([o], z3.Implies(
             o != s0.sel("CallbackSpecList.conventional_specs", specs), z3.Select(s["set.has"], o) == z3.Select(s0["set.has"], o)),
             patterns=[z3.Select(s["set.has"], o)]),
@@ -313,7 +313,7 @@ class SpecListAddOne(Contract):
     params = [("self", "CallbackSpecList"), ("func", "Val"), ("group", "CallbackGroup"), ("**kwargs", "dict[str,Val]")]
     returns = "Val"
     modifies = ADD_MODIFIES
-    properties = ["C02", "C15"]
+    properties = ["C02", "C08", "C15"]  # C08: a guard given as text must BE a guard of the transition (never silently dropped)
 
     def pre(self, s, a):
         return {"list-wf": spec_list_wf(s, a.self.e), "a-name-not-a-spec": NOT_A_SPEC(a.func.e)}
@@ -353,7 +353,7 @@ class SpecListAdd(Contract):
     params = [("self", "CallbackSpecList"), ("callbacks", "str"), ("group", "CallbackGroup"), ("**kwargs", "dict[str,Val]")]
     returns = "CallbackSpecList"
     modifies = ADD_MODIFIES
-    properties = ["C02", "C15"]
+    properties = ["C02", "C08", "C15"]
 
     def pre(self, s, a):
         return {"list-wf": spec_list_wf(s, a.self.e), "a-name-not-a-spec": NOT_A_SPEC(STR_REF(a.callbacks.e))}
